@@ -5,6 +5,10 @@
 (*   Part "sl" : sphere lattice, Forward;  Part "slr": sphere lattice, Reverse on the central meridian.                  *)
 (*               root -> chunk c -> vectors; invariants SphInv (the lattice oracle itself has the symmetries of Pred)     *)
 (*               and RevInv (SphRev inverts SphFwd on the central meridian and its far side).                            *)
+(*   Part "bp" : the branch point of the exact form, geographic side: configuration x class x reflection x ulp offset;   *)
+(*               invariant BpInv (the expectation at a reflected branch point is Pred(e) applied to the base one).        *)
+(*   Part "bpr": the branch point, grid side: configuration x class x grid reflection x ulp offset of the easting.        *)
+(*   Part "cfg": the constructor family: class x configuration x sample index; invariant CfgInv.                          *)
 EXTENDS TMSym, TLC, Json
 
 CONSTANTS Part, NChunks, Stride
@@ -35,6 +39,25 @@ VecSL(C) ==
 VecSLR(C) ==
   \E yk \in InChunk(-180..180, C), dy \in D3, p \in LonPairsFew, ki \in KiSet : v' = <<"slr", ki, p[1], yk, dy>>
 
+\* branch point and constructor family: configurations (fi, ai, ki) of the driver's tables
+FPosSet == {fi \in 0..(NF - 1) : FPos(fi)}
+BpAiSet == IF Stride > 1 THEN {0, 1, 3} ELSE 0..(NA - 1)
+BpKiSet == IF Stride > 1 THEN {0, 1, 2} ELSE 0..(NK - 1)
+BprDSet == IF Stride > 1 THEN -3..3 ELSE -6..6
+CfgJSet == IF Stride > 1 THEN 0..1 ELSE 0..7
+VecBP(C) ==
+  \E cls \in 1..4, fi \in FPosSet, ai \in BpAiSet, ki \in BpKiSet, d \in D3 : \E e \in BpElem(cls) :
+     /\ (fi + NF * ai) % NChunks = C
+     /\ v' = <<"bp", cls, fi, ai, ki, e.slat, e.s, e.b, d>> \o DrvOut(Pred(e))
+VecBPR(C) ==
+  \E cls \in 1..4, fi \in FPosSet, ai \in BpAiSet, ki \in BpKiSet, d \in BprDSet : \E t \in BprElem(cls) :
+     /\ (fi + NF * ai) % NChunks = C
+     /\ v' = <<"bpr", cls, fi, ai, ki, t[1], t[2], t[3], d>>
+VecCFG(C) ==
+  \E cls \in 0..4, fi \in 0..(NF - 1), ai \in 0..(NA - 1), ki \in 0..(NK - 1), j \in CfgJSet :
+     /\ Admissible(cls, fi) /\ (fi + NF * ai) % NChunks = C
+     /\ v' = <<"cfg", cls, fi, ai, ki, j>>
+
 Init == v = <<"root">>
 Next ==
   IF Part = "grp" THEN
@@ -43,7 +66,8 @@ Next ==
        /\ \E g \in Generators : LET e2 == ActIn(g, v[2]) IN e2 \in Elem /\ v' = <<"g", e2, ActOut(g, v[2], v[3])>>
   ELSE
     \/ v = <<"root">> /\ \E c \in 0..(NChunks - 1) : v' = <<"chunk", c>>
-    \/ v[1] = "chunk" /\ (IF Part = "sl" THEN VecSL(v[2]) ELSE VecSLR(v[2]))
+    \/ v[1] = "chunk" /\ CASE Part = "sl" -> VecSL(v[2]) [] Part = "slr" -> VecSLR(v[2]) [] Part = "bp" -> VecBP(v[2])
+                            [] Part = "bpr" -> VecBPR(v[2]) [] Part = "cfg" -> VecCFG(v[2])
 
 (* ------------------------------ model invariants ------------------------- *)
 \* homomorphism: every path to the same input transform predicts the same output transform, namely Pred
@@ -86,7 +110,27 @@ RevInv ==
        /\ (r.lon[1] = "lon" => LET f == SphFwd(r.lat[2], Norm180(r.lon[2] - v[3]), 0)
                                IN f.x = <<"int", 0>> /\ (f.y = <<"int", v[4]>> \/ (f.y[1] = "pm" /\ AbsI(v[4]) = f.y[2])))
 
+\* the expectation at a reflected branch point is the documented output transform Pred(e) applied to the expectation at
+\* the base point (first quadrant), wherever both are exact; the emitted transform is the one the driver has to apply
+BpInv ==
+  v[1] = "bp" =>
+    LET cls == v[2]  d == v[9]
+        e == [slat |-> v[6], s |-> v[7], b |-> v[8], wl |-> 0, w0 |-> 0]
+        o == Pred(e)  base == BpFwd(cls, Id, d)  img == BpFwd(cls, e, d)
+    IN
+    /\ Admissible(cls, v[3]) /\ FPos(v[3]) /\ e \in BpElem(cls) /\ SubSeq(v, 10, 14) = DrvOut(o)
+    /\ cls <= 2 =>
+         /\ img.xs = o.ax * base.xs
+         /\ (base.y[1] = "int" => LET t == o.ay * base.y[2] + o.cy * 2 IN IF img.y[1] = "int" THEN img.y[2] = t ELSE AbsI(t) = img.y[2])
+         /\ (base.g[1] = "int" => LET t == Norm180(o.ag * base.g[2] + o.cg * 180) IN IF img.g[1] = "int" THEN img.g[2] = t ELSE AbsI(t) = img.g[2])
+         /\ img.k = base.k
+    /\ cls >= 3 => img = base                                  \* extendp: lat = -0 is the same point
+CfgInv ==
+  v[1] = "cfg" =>
+    /\ Admissible(v[2], v[3]) /\ CtorForms(v[2]) >= 1
+    /\ Delegate(v[2]) # -1 => Delegate(Delegate(v[2])) = v[2] /\ Admissible(Delegate(v[2]), v[3])
+
 Emit ==
   /\ v[1] = "g" => PrintT(ToJson(<<"sym", v[2].slat, v[2].s, v[2].b, v[2].wl, v[2].w0>> \o DrvOut(v[3])))
-  /\ v[1] \in {"sl", "slr"} => PrintT(ToJson(v))
+  /\ v[1] \in {"sl", "slr", "bp", "bpr", "cfg"} => PrintT(ToJson(v))
 =============================================================================
